@@ -18,12 +18,13 @@ macro_rules! timer_exec {
             clock: &'static MockClock,
             svc: &'static GenericTimerService<M>,
             futs: Slots<$fut>,
+            view: bool,
         }
         impl<M: RawMutex + $bound + 'static> $name<M> {
             pub fn new(cfg: &[u64]) -> Self {
                 let clock: &'static MockClock = Box::leak(Box::new(MockClock::new()));
                 let svc = Box::leak(Box::new(GenericTimerService::<M>::new(clock)));
-                $name { clock, svc, futs: Slots::new(cfg[0] as usize) }
+                $name { clock, svc, futs: Slots::new(cfg[0] as usize), view: false }
             }
             fn observe(&self, o: &mut Obs) {
                 use futures_intrusive::timer::Clock;
@@ -101,10 +102,16 @@ macro_rules! timer_exec {
                 self.observe(&mut o);
                 o
             }
+            fn share(&self) -> Option<Box<dyn Exec>> {
+                Some(Box::new($name::<M> { clock: self.clock, svc: self.svc, futs: Slots::new(self.futs.len()), view: true }))
+            }
         }
         impl<M: RawMutex + $bound + 'static> Drop for $name<M> {
             fn drop(&mut self) {
                 self.futs.drop_all();
+                if self.view {
+                    return;
+                }
                 unsafe {
                     drop(Box::from_raw(self.svc as *const _ as *mut GenericTimerService<M>));
                     drop(Box::from_raw(self.clock as *const _ as *mut MockClock));
